@@ -1,4 +1,5 @@
 import UgoVerif.VM.Base
+import UgoVerif.VM.Copy
 /-
   VM model — one instruction (`step`), error throwing, calls.  Written in Go
   statement order; every comment `-- vm.go:<what>` names the mirrored code.
@@ -860,11 +861,10 @@ def execStoreModule : M Ctl := do
   let midx ← opnd2 1
   let sp ← getSp
   let value ← stackGet (sp - 1)
-  -- Copier: Array, Map, Bytes, Function, Error, … ; module values in the model are maps/arrays/scalars
-  let value ← (match value with
-    | .map _ | .arr .. => unsupported "STOREMODULE deep copy of a container"
-    | .nil => panic "runtime error: invalid memory address or nil pointer dereference"
-    | v => pure v)
+  -- if v, ok := value.(Copier); ok { value = v.Copy(); vm.stack[vm.sp-1] = value }   (VM/Copy.lean;
+  -- the comma-ok assertion on a nil interface is false, not a panic)
+  let value ← copyV value
+  stackSet (sp - 1) value
   let s ← getS
   if midx ≥ s.modules.size then
     panic s!"runtime error: index out of range [{midx}] with length {s.modules.size}"
